@@ -81,6 +81,15 @@ Theorem pandas_ref_refines_partial : forall jt lk rk lcols rcols L R,
 Proof. exact pandas_ref_refines_partial_l. Qed.
 Print Assumptions pandas_ref_refines_partial.
 
+(* the same for the reference description of the pyarrow engine (Acero keeps one key set, mloda_right_index copy,
+   append only for identical schemas, no union): outside arrow_dom it is the relational operator *)
+Theorem arrow_ref_refines_partial : forall jt lk rk lcols rcols L R t,
+  arrow_dom jt lk rk lcols rcols = false ->
+  arrow_ref jt lk rk lcols rcols L R = Some t ->
+  bag_eq t (rel_join jt lk rk L R).
+Proof. exact arrow_ref_refines_partial_l. Qed.
+Print Assumptions arrow_ref_refines_partial.
+
 (* what bag_eq means: canonical rows are equal exactly when the rows read the same on every column,
    and the boolean test used by the correspondence checkers decides bag_eq *)
 Theorem C12_canon_sound_complete : forall r1 r2, canon r1 = canon r2 <-> (forall c, get c r1 = get c r2).
